@@ -5,7 +5,9 @@ V=$(cd "$(dirname "$0")/.." && pwd)
 R=${KV_REPO:-/repo}
 export CARGO_NET_OFFLINE=true RUSTC_BOOTSTRAP=1
 mkdir -p $V/build/expand
-(cd $R && CARGO_TARGET_DIR=$V/build/expand_target cargo rustc --offline -q -p konst_kernel --lib --features rust_1_83,iter,__for_konst,rust_1_64 -- -Zunpretty=expanded > $V/build/expand/konst_kernel.rs.tmp 2>$V/build/expand/konst_kernel.err) && mv $V/build/expand/konst_kernel.rs.tmp $V/build/expand/konst_kernel.rs
-(cd $R && CARGO_TARGET_DIR=$V/build/expand_target cargo rustc --offline -q -p konst --lib --features rust_1_83 -- -Zunpretty=expanded > $V/build/expand/konst.rs.tmp 2>$V/build/expand/konst.err) && mv $V/build/expand/konst.rs.tmp $V/build/expand/konst.rs
+(cd $R && CARGO_TARGET_DIR=$V/build/expand_target cargo rustc --offline -q -p konst_kernel --lib --features rust_1_83,iter,__for_konst,rust_1_64 -- -Zunpretty=expanded > $V/build/expand/konst_kernel.rs.tmp 2>$V/build/expand/konst_kernel.err) || { echo 'rs2lean: macro expansion of konst_kernel failed'; tail -20 $V/build/expand/konst_kernel.err; exit 3; }
+mv $V/build/expand/konst_kernel.rs.tmp $V/build/expand/konst_kernel.rs
+(cd $R && CARGO_TARGET_DIR=$V/build/expand_target cargo rustc --offline -q -p konst --lib --features rust_1_83 -- -Zunpretty=expanded > $V/build/expand/konst.rs.tmp 2>$V/build/expand/konst.err) || { echo 'rs2lean: macro expansion of konst failed'; tail -20 $V/build/expand/konst.err; exit 3; }
+mv $V/build/expand/konst.rs.tmp $V/build/expand/konst.rs
 (cd $V/translator && CARGO_TARGET_DIR=$V/build/translator cargo build --offline -q)
 $V/build/translator/debug/rs2lean --src konst_kernel=$V/build/expand/konst_kernel.rs --src konst=$V/build/expand/konst.rs --targets $V/translator/targets.txt --out $V/lean/KonstVerif/Extracted/Gen
